@@ -1,5 +1,6 @@
 import PncProofs.SlabLemmas
 import PncProofs.BridgeLemmas
+import PncProofs.SlabReadLemmas
 /-
 C13 — memory-mapped and record-based CAMx readers agree.
 
@@ -221,5 +222,308 @@ example : (mmDecode .temperature 2 (encode exFile)).map (fun v => (v.nt, v.nz, v
 to infer the layer count from — the model (like `one3d`, which raises IndexError) rejects the file -/
 theorem single_step_rejected :
     mmDecode .one3d 2 (encode { cells := 2, steps := [⟨0, 2001, [[1, 2], [3, 4]]⟩] }) = none := by rfl
+
+/-! ### the record-based readers (one3d / humidity / vertical diffusivity, and height/pressure)
+
+They navigate by time arithmetic (`SlabRead.lean`).  On a file whose time axis is regular — every step follows the
+previous one by the same whole number of hours, at most a day — they present the content that was written, hence
+the same steps, layers and cells as the memory-mapped readers. -/
+open SlabRead
+
+/-- a file the record readers are meant for: `L` layers (`2 L` slabs per step for height/pressure), at least two
+steps, and a regular time axis from `start` in steps of `step` (HHMM units, an even number, at most 2400) -/
+structure ReadWF (hp : Bool) (f : SFile) (L : Nat) (start : DT) (step : Int) : Prop where
+  cells : ∀ s ∈ f.steps, ∀ c ∈ s.slabs, c.length = f.cells
+  slabs : ∀ s ∈ f.steps, s.slabs.length = L * (if hp then 2 else 1)
+  layers : 1 ≤ L
+  two : 2 ≤ f.steps.length
+  t0 : 0 ≤ start.2 ∧ start.2 < 2400
+  stepOk : 0 < step ∧ step ≤ 2400
+  even : step % 2 = 0
+  axis : ∀ (i : Nat) (h : i < f.steps.length),
+    (((f.steps[i].date : Nat) : Int), truncF32 f.steps[i].time) = iter start step i
+
+theorem getElem?_flatten_uniform {α} (m : Nat) : ∀ (ls : List (List α)), (∀ l ∈ ls, l.length = m) →
+    ∀ (i j : Nat), j < m → (ls.flatten)[i * m + j]? = (ls[i]?).bind (·[j]?) := by
+  intro ls
+  induction ls with
+  | nil => intro _ i j _; simp
+  | cons a rest ih =>
+    intro h i j hj
+    have ha : a.length = m := h a (by simp)
+    cases i with
+    | zero =>
+      simp only [Nat.zero_mul, Nat.zero_add, List.flatten_cons, List.getElem?_cons_zero, Option.bind_some]
+      rw [List.getElem?_append_left (by omega)]
+    | succ i =>
+      simp only [List.flatten_cons, List.getElem?_cons_succ]
+      rw [List.getElem?_append_right (by rw [ha, Nat.succ_mul]; omega)]
+      have : (i + 1) * m + j - a.length = i * m + j := by rw [ha, Nat.succ_mul]; omega
+      rw [this]
+      exact ih (fun l hl => h l (List.mem_cons_of_mem _ hl)) i j hj
+
+/-- the cells of slab `j` of step `i` -/
+def slabAt (f : SFile) (i j : Nat) : List Word := ((f.steps[i]?).bind (·.slabs[j]?)).getD []
+
+theorem recDT_frame (t d : Word) (c : List Word) : recDT (frame (t :: d :: c)) = (((d : Nat) : Int), truncF32 t) := by
+  simp [recDT, frame]
+
+/-- the framed records of a well-formed file are the table the record readers walk -/
+theorem table_of_file (hp : Bool) (f : SFile) (L : Nat) (start : DT) (step : Int) (h : ReadWF hp f L start step) :
+    Table ((f.steps.map framedStep).flatten) f.steps.length L (if hp then 2 else 1) (iter start step) (slabAt f) := by
+  have hm : ∀ l ∈ f.steps.map framedStep, l.length = L * (if hp then 2 else 1) := by
+    intro l hl
+    obtain ⟨s, hs, rfl⟩ := List.mem_map.mp hl
+    rw [framedStep_length, h.slabs s hs]
+  constructor
+  · rw [flatten_length f.steps _ h.slabs, Nat.mul_comm]
+  · intro i j hi hj
+    rw [getElem?_flatten_uniform _ _ hm i j hj]
+    have hsi : f.steps[i]? = some f.steps[i] := List.getElem?_eq_getElem hi
+    have hmem : f.steps[i] ∈ f.steps := List.getElem_mem hi
+    have hjs : j < (f.steps[i]).slabs.length := by rw [h.slabs _ hmem]; exact hj
+    refine ⟨frame (f.steps[i].time :: f.steps[i].date :: (f.steps[i]).slabs[j]), ?_, ?_, ?_⟩
+    · simp only [List.getElem?_map, hsi, Option.map_some, Option.bind_some, framedStep, stepRows,
+        List.getElem?_eq_getElem hjs]
+    · rw [recDT_frame]; exact h.axis i hi
+    · rw [recCells_frame]
+      simp [slabAt, hsi, List.getElem?_eq_getElem hjs]
+
+theorem encode_whole (f : SFile) (hc : ∀ s ∈ f.steps, ∀ c ∈ s.slabs, c.length = f.cells) :
+    (encode f).length % (f.cells + 4) = 0 := by
+  rw [encode_eq]
+  have : ∀ (ps : List (List Word)), (∀ p ∈ ps, p.length = f.cells + 4) →
+      ps.flatten.length % (f.cells + 4) = 0 := by
+    intro ps
+    induction ps with
+    | nil => intro _; simp
+    | cons a as ih =>
+      intro hp
+      simp only [List.flatten_cons, List.length_append, hp a (by simp)]
+      have := ih (fun x hx => hp x (by simp [hx]))
+      rw [Nat.add_mod, Nat.mod_self, this]; simp
+  exact this ((f.steps.map framedStep).flatten) (by
+    intro p hp
+    obtain ⟨fs, hfs, hp'⟩ := List.mem_flatten.mp hp
+    obtain ⟨s, hs, rfl⟩ := List.mem_map.mp hfs
+    obtain ⟨c, hc', rfl⟩ := mem_framedStep hp'
+    rw [frame_len, hc s hs c hc'])
+
+/-- a file that is well-formed for the record readers is well-formed for the memory-mapped ones -/
+theorem wf_of_readWF (hp : Bool) (f : SFile) (L : Nat) (start : DT) (step : Int) (h : ReadWF hp f L start step) : WF f := by
+  refine ⟨h.cells, fun s hs s' hs' => by rw [h.slabs s hs, h.slabs s' hs'], ?_⟩
+  have h2 := h.two
+  match hst : f.steps with
+  | [] => rw [hst] at h2; simp at h2
+  | [_] => rw [hst] at h2; simp at h2
+  | s0 :: s1 :: rest =>
+    refine ⟨s0, s1, rest, rfl, ?_, ?_⟩
+    · intro heq
+      have a0 := h.axis 0 (by omega)
+      have a1 := h.axis 1 (by omega)
+      simp only [hst, List.getElem_cons_zero, List.getElem_cons_succ] at a0 a1
+      have hne := iter_ne start step h.t0 h.stepOk 1 0 (by omega)
+      apply hne
+      rw [← a0, ← a1]
+      simp only [Prod.mk.injEq] at heq
+      rw [heq.1, heq.2]
+    · have := h.slabs s0 (by rw [hst]; simp)
+      have hl := h.layers
+      rw [this]
+      cases hp <;> simp <;> omega
+
+/-- **C13 (record readers).** For every file with a regular time axis — any grid, any number of layers, at least
+two steps, any payload — the record-based reader of the one3d family (`hp = false`) and of height/pressure files
+(`hp = true`) presents exactly the content the file was written from: the number of steps and layers, the time
+of every step and the cells of every slab. -/
+theorem read_decode_encode (hp : Bool) (f : SFile) (L : Nat) (start : DT) (step : Int) (h : ReadWF hp f L start step) :
+    readDecode hp (encode f) =
+      some (tableView f.steps.length L (if hp then 2 else 1) (iter start step) (slabAt f)) := by
+  have hwf := wf_of_readWF hp f L start step h
+  obtain ⟨s0, s1, rest, hst, _, hm⟩ := hwf.two
+  -- the record size the reader takes from the first marker
+  have hhead : (encode f).headD 0 / 4 - 2 = f.cells := by
+    obtain ⟨c0, cs, hc0⟩ : ∃ c0 cs, s0.slabs = c0 :: cs := by
+      cases hsl : s0.slabs with
+      | nil => rw [hsl] at hm; simp at hm
+      | cons c cs => exact ⟨c, cs, rfl⟩
+    have hlen : c0.length = f.cells := h.cells s0 (by rw [hst]; simp) c0 (by rw [hc0]; simp)
+    simp only [encode, rows, hst, List.map_cons, List.flatten_cons, stepRows, hc0, encodeRecs, frame,
+      List.cons_append, List.nil_append, List.headD_cons, List.length_cons, hlen]
+    rw [Nat.mul_div_cancel_left _ (show 0 < 4 by omega)]
+    rfl
+  unfold readDecode
+  simp only [hhead]
+  rw [if_neg (by rw [encode_whole f h.cells]; simp), chunk_records f hwf]
+  exact readRows_spec hp _ f.steps.length L start step (slabAt f) (table_of_file hp f L start step h)
+    h.t0 h.stepOk h.even h.two h.layers
+
+theorem range_map_getD {α} (d : α) (l : List α) : (List.range l.length).map (fun k => (l[k]?).getD d) = l := by
+  apply List.ext_getElem
+  · simp
+  · intro i h1 h2
+    simp only [List.length_map, List.length_range] at h1
+    simp [List.getElem?_eq_getElem h1]
+
+theorem range_flatMap_getElem? {α β} (h : Option α → List β) (l : List α) :
+    (List.range l.length).flatMap (fun i => h (l[i]?)) = l.flatMap (fun x => h (some x)) := by
+  induction l with
+  | nil => simp
+  | cons a rest ih =>
+    rw [List.length_cons, List.range_succ_eq_map, List.flatMap_cons, List.flatMap_map, List.flatMap_cons]
+    simp only [List.getElem?_cons_zero, Function.comp_def, List.getElem?_cons_succ]
+    rw [ih]
+
+theorem flatMap_congr' {α β} (l : List α) (g1 g2 : α → List β) (h : ∀ x ∈ l, g1 x = g2 x) : l.flatMap g1 = l.flatMap g2 := by
+  induction l with
+  | nil => rfl
+  | cons a rest ih =>
+    simp only [List.flatMap_cons, h a (by simp), ih (fun x hx => h x (List.mem_cons_of_mem _ hx))]
+
+/-- every second slab of a step, as the table indexes it -/
+theorem pickEvery_two (v : Nat) (hv : v < 2) : ∀ (L : Nat) (l : List (List Word)), l.length = L * 2 →
+    pickEvery v 2 l = (List.range L).map (fun k => (l[k * 2 + v]?).getD []) := by
+  intro L
+  induction L with
+  | zero => intro l hl; have : l = [] := List.length_eq_zero_iff.mp (by omega); subst this; simp [pickEvery]
+  | succ L ih =>
+    intro l hl
+    match l, hl with
+    | [], hl => simp at hl
+    | [_], hl => simp at hl; omega
+    | a :: b :: rest, hl =>
+      have hr : rest.length = L * 2 := by simp only [List.length_cons] at hl; omega
+      have ihr := ih rest hr
+      unfold pickEvery at ihr ⊢
+      rw [List.length_cons, List.length_cons, List.range_succ_eq_map, List.filterMap_cons]
+      rw [List.range_succ_eq_map]
+      simp only [List.map_cons, List.filterMap_cons, List.filterMap_map, List.map_map, Function.comp_def]
+      have e1 : ∀ i : Nat, (i + 1 + 1) % 2 = i % 2 := by intro i; omega
+      simp only [e1, List.getElem?_cons_succ]
+      rw [List.range_succ_eq_map (n := L)]
+      simp only [List.map_cons, List.map_map, Function.comp_def]
+      have e2 : ∀ k : Nat, (k + 1) * 2 + v = k * 2 + v + 1 + 1 := by intro k; omega
+      simp only [e2, List.getElem?_cons_succ]
+      rw [← ihr]
+      have hv2 : v = 0 ∨ v = 1 := by omega
+      rcases hv2 with rfl | rfl <;> simp
+
+theorem foldl_merge2 (n1 n2 : String) (a b : Step → List (List Word)) : ∀ (rest : List Step) (A B : List (List Word)),
+    rest.foldl (fun acc st => mergeVars acc [(n1, a st), (n2, b st)]) [(n1, A), (n2, B)] =
+      [(n1, A ++ rest.flatMap a), (n2, B ++ rest.flatMap b)] := by
+  intro rest
+  induction rest with
+  | nil => intro A B; simp
+  | cons s rest ih =>
+    intro A B
+    have e : mergeVars [(n1, A), (n2, B)] [(n1, a s), (n2, b s)] = [(n1, A ++ a s), (n2, B ++ b s)] := rfl
+    rw [List.foldl_cons, e, ih]
+    simp [List.append_assoc]
+
+theorem foldl_merge1 (n1 : String) (a : Step → List (List Word)) : ∀ (rest : List Step) (A : List (List Word)),
+    rest.foldl (fun acc st => mergeVars acc [(n1, a st)]) [(n1, A)] = [(n1, A ++ rest.flatMap a)] := by
+  intro rest
+  induction rest with
+  | nil => intro A; simp
+  | cons s rest ih =>
+    intro A
+    have e : mergeVars [(n1, A)] [(n1, a s)] = [(n1, A ++ a s)] := rfl
+    rw [List.foldl_cons, e, ih]
+    simp [List.append_assoc]
+
+/-- the table of slabs is the list of slabs of every step (one record per layer) -/
+theorem slabs_table1 (f : SFile) (L : Nat) (hsl : ∀ s ∈ f.steps, s.slabs.length = L) :
+    (List.range f.steps.length).flatMap (fun i => (List.range L).map (fun k => slabAt f i (k * 1 + 0))) =
+      f.steps.flatMap (·.slabs) := by
+  have := range_flatMap_getElem? (fun o : Option Step => (List.range L).map (fun k => ((o.bind (·.slabs[k * 1 + 0]?)).getD []))) f.steps
+  simp only [slabAt]
+  rw [this]
+  apply flatMap_congr'
+  intro s hs
+  simp only [Option.bind_some, Nat.mul_one, Nat.add_zero]
+  conv_rhs => rw [← range_map_getD [] s.slabs, hsl s hs]
+
+/-- … and, for two records per layer, every second slab -/
+theorem slabs_table2 (f : SFile) (L v : Nat) (hv : v < 2) (hsl : ∀ s ∈ f.steps, s.slabs.length = L * 2) :
+    (List.range f.steps.length).flatMap (fun i => (List.range L).map (fun k => slabAt f i (k * 2 + v))) =
+      f.steps.flatMap (fun s => pickEvery v 2 s.slabs) := by
+  have := range_flatMap_getElem? (fun o : Option Step => (List.range L).map (fun k => ((o.bind (·.slabs[k * 2 + v]?)).getD []))) f.steps
+  simp only [slabAt]
+  rw [this]
+  apply flatMap_congr'
+  intro s hs
+  simp only [Option.bind_some]
+  rw [pickEvery_two v hv L s.slabs (hsl s hs)]
+
+/-- **C13 (the two reader families agree).** On every file with a regular time axis the memory-mapped reader and the
+record-based reader present the same number of steps and layers, the same time of every step and the same cells
+of every variable — for the one3d family (`hp = false`) and for height/pressure files (`hp = true`), any grid,
+layer count, number of steps ≥ 2 and payload. -/
+theorem readers_agree (hp : Bool) (f : SFile) (L : Nat) (start : DT) (step : Int) (h : ReadWF hp f L start step) :
+    (mmDecode (if hp then Kind.heightPressure else Kind.one3d) f.cells (encode f)).map
+        (fun v => (v.nt, v.nz, v.flags.map (fun p => (((p.1 : Nat) : Int), truncF32 p.2)), v.vars.map (·.2))) =
+    (readDecode hp (encode f)).map (fun v => (v.nt, v.nz, v.times, v.vars)) := by
+  have hwf := wf_of_readWF hp f L start step h
+  rw [mm_decode_encode _ f hwf, read_decode_encode hp f L start step h]
+  obtain ⟨s0, s1, rest, hst, _, _⟩ := hwf.two
+  have hs0 := h.slabs s0 (by rw [hst]; simp)
+  have hL := h.layers
+  -- the time of every step
+  have htimes : f.steps.map (fun s => (((s.date : Nat) : Int), truncF32 s.time)) = (List.range f.steps.length).map (iter start step) := by
+    apply List.ext_getElem
+    · simp
+    · intro i h1 h2
+      simp only [List.length_map] at h1
+      simp only [List.getElem_map, List.getElem_range]
+      exact h.axis i h1
+  unfold viewOf
+  simp only [hst, tableView, Option.map_some, Option.some.injEq]
+  rw [hst] at htimes
+  cases hp
+  · -- one3d family
+    simp only [Bool.false_eq_true, if_false, Nat.mul_one] at hs0 ⊢
+    have t1 := slabs_table1 f L (fun s hs => by have := h.slabs s hs; simpa using this)
+    rw [hst] at t1
+    simp only [layersOf, Option.map_some, Option.some.injEq, stepVars, foldl_merge1, List.map_cons, List.map_nil,
+      List.range_one, Prod.mk.injEq, List.length_cons, true_and]
+    refine ⟨hs0, ?_, ?_⟩
+    · simpa [List.map_map, Function.comp_def] using htimes
+    · simp only [List.length_cons, List.flatMap_cons, Nat.mul_one] at t1
+      rw [t1]
+      simp [List.flatMap_cons]
+  · -- height / pressure
+    simp only [if_true] at hs0 ⊢
+    have hm2 : s0.slabs.length % 2 = 0 ∧ s0.slabs.length ≥ 2 := by omega
+    have t0 := slabs_table2 f L 0 (by omega) h.slabs
+    have t1 := slabs_table2 f L 1 (by omega) h.slabs
+    rw [hst] at t0 t1
+    simp only [List.length_cons, List.flatMap_cons] at t0 t1
+    have r2 : List.range 2 = [0, 1] := rfl
+    simp only [layersOf, hm2, and_self, if_true, Option.map_some, Option.some.injEq, stepVars, foldl_merge2,
+      List.map_cons, List.map_nil, Prod.mk.injEq, List.length_cons, true_and, r2, t0, t1]
+    refine ⟨by omega, ?_, ?_⟩
+    · simpa [List.map_map, Function.comp_def] using htimes
+    · simp [List.flatMap_cons]
+
+/-- the hypotheses of `readers_agree` are met: three hourly steps across midnight, two layers, two cells -/
+def exRead : SFile :=
+  ⟨2, [⟨f32OfNat 2300, 19200, [[1, 2], [3, 4]]⟩, ⟨f32OfNat 0, 19201, [[5, 6], [7, 8]]⟩, ⟨f32OfNat 100, 19201, [[9, 10], [11, 12]]⟩]⟩
+
+theorem exRead_wf : ReadWF false exRead 2 (19200, 2300) 100 := by
+  refine ⟨by decide, by decide, by decide, by decide, by decide, by decide, by decide, ?_⟩
+  intro i h
+  have e0 : (((19200 : Nat) : Int), truncF32 (f32OfNat 2300)) = iter (19200, 2300) 100 0 := by decide +kernel
+  have e1 : (((19201 : Nat) : Int), truncF32 (f32OfNat 0)) = iter (19200, 2300) 100 1 := by decide +kernel
+  have e2 : (((19201 : Nat) : Int), truncF32 (f32OfNat 100)) = iter (19200, 2300) 100 2 := by decide +kernel
+  have h3 : i < 3 := h
+  match i, h3 with
+  | 0, _ => exact e0
+  | 1, _ => exact e1
+  | 2, _ => exact e2
+
+example : (readDecode false (encode exRead)).map (fun v => (v.nt, v.nz, v.times)) =
+    some (3, 2, [(19200, 2300), (19201, 0), (19201, 100)]) := by
+  rw [read_decode_encode false exRead 2 (19200, 2300) 100 exRead_wf]
+  decide +kernel
 
 end Props.C13
